@@ -19,6 +19,13 @@ theorem facts_ok :
     ∧ Facts.locationsSetSingleSwap = true
     ∧ Facts.serversResetDeletesAbsent = true ∧ Facts.serversResetUpdatesExisting = true := by decide
 
+/-- Obligation on the extracted facts (all non-test files): no `go`/`defer` closure inside a loop
+refers to the loop's own iteration variables while the module's language version shares them
+between iterations — so the goroutines a reload starts (closing each removed server, destroying
+each removed upstream) each act on the element of THEIR iteration, as `Reconfig` models it. -/
+theorem facts_closures_own_their_element :
+    Facts.loopVarPerIteration = true ∨ Facts.closureLoopCaptures = [] := by decide
+
 /-- a server gets the same effective options whether it is created or updated in place -/
 theorem effective_same (o : SrvOpt) (b : Bool) : effective b o = effective true o := by
   unfold effective
